@@ -1,6 +1,9 @@
 //! mlsv — property-based verification harness for awslabs/mls-rs (see /verif/DESIGN.md).
 mod alloc_track;
 mod engine;
+mod history;
+mod providers;
+mod world;
 mod props;
 mod refmodel;
 
